@@ -32,6 +32,8 @@ impl Tier {
 pub fn flavour() -> &'static str {
     if cfg!(miri) {
         "miri"
+    } else if std::env::var("FV_FLAVOUR").is_ok_and(|v| v == "asan") {
+        "asan"
     } else if cfg!(debug_assertions) {
         "checked"
     } else {
@@ -189,6 +191,17 @@ pub enum Flav {
     Both,
 }
 
+/// Workloads that are repeated under the sanitizers in the thorough tier:
+/// (check, workload, cases under Miri, cases under AddressSanitizer).
+/// Only C06 and C20 talk about panics / reading past the input; foca has no
+/// unsafe code, so the sanitizers watch what it reaches in bytes/bincode/postcard/std.
+pub const SANITIZER_PLAN: &[(&str, &str, u64, u64)] = &[
+    ("C06", "fuzz_plain", 32, 6_000),
+    ("C06", "fuzz_full", 32, 6_000),
+    ("C06", "chaos", 16, 3_000),
+    ("C20", "codec", 32, 60_000),
+];
+
 pub type CaseFn = fn(&Ctx, u64, &mut Acc) -> Verdict;
 
 pub struct Workload {
@@ -240,7 +253,18 @@ fn watchdog_secs(tier: Tier) -> u64 {
 pub fn run_case(check: &Check, w: &Workload, ctx: &Ctx, case: u64, acc: &mut Acc) {
     acc.evaluations += 1;
     *acc.per_workload.entry(w.name.to_string()).or_default() += 1;
-    let r = (w.f)(ctx, case, acc);
+    // a panic escaping a case is a harness-level failure of that case (foca's own panics are caught
+    // around every call in node.rs): counted, noted, never a verdict
+    let r = match std::panic::catch_unwind(std::panic::AssertUnwindSafe(|| (w.f)(ctx, case, acc))) {
+        Ok(r) => r,
+        Err(_) => {
+            let (loc, msg) = crate::node::take_last_panic().unwrap_or_default();
+            acc.inconclusive += 1;
+            acc.tally("harness_panics", 1);
+            acc.note(&format!("harness panic in {}/{case}: {loc}: {msg}", w.name));
+            return;
+        }
+    };
     if let Err(v) = r {
         let already = acc.viols.iter().filter(|x| x.rule == v.rule).count();
         if already >= 3 {
@@ -290,17 +314,31 @@ pub fn run_shard(check: &Check, tier: Tier, k: u64, n: u64) -> Acc {
                 continue;
             }
         }
-        let mine = match (w.flav, flavour()) {
-            (Flav::Both, _) => true,
-            (Flav::Checked, "checked") => true,
-            (Flav::Plain, "plain") => true,
-            (_, "miri") => true,
-            _ => false,
+        let fl = flavour();
+        let total = if fl == "miri" || fl == "asan" {
+            match SANITIZER_PLAN.iter().find(|(c, wn, _, _)| *c == check.id && *wn == w.name) {
+                Some((_, _, m, a)) => {
+                    if fl == "miri" {
+                        *m
+                    } else {
+                        *a
+                    }
+                }
+                None => continue,
+            }
+        } else {
+            let mine = match (w.flav, fl) {
+                (Flav::Both, _) => true,
+                (Flav::Checked, "checked") => true,
+                (Flav::Plain, "plain") => true,
+                _ => false,
+            };
+            if !mine {
+                continue;
+            }
+            cases_for(w, tier)
         };
-        if !mine {
-            continue;
-        }
-        let total = cases_for(w, tier);
+        acc.tally(&format!("cases_planned_under/{fl}"), total / n + u64::from(k < total % n));
         let mut case = k;
         while case < total {
             run_case(check, w, &ctx, case, &mut acc);
@@ -381,7 +419,7 @@ pub fn run_parent(check: &Check, tier: Tier) -> i32 {
             }
         }
     }
-    let mut children = vec![];
+    let mut children: Vec<(String, u64, std::process::Child)> = vec![];
     for (fl, bin) in &bins {
         for k in 0..nsh {
             let child = std::process::Command::new(bin)
@@ -394,7 +432,53 @@ pub fn run_parent(check: &Check, tier: Tier) -> i32 {
             children.push((fl.clone(), k, child));
         }
     }
+    // sanitizer shards (thorough tier, or FV_SANITIZERS=1)
+    let want_san = (tier == Tier::Thorough || std::env::var("FV_SANITIZERS").is_ok()) && SANITIZER_PLAN.iter().any(|p| p.0 == check.id);
+    let mut san_notes = vec![];
+    if want_san {
+        match std::env::var("FV_ASAN") {
+            Ok(bin) if std::path::Path::new(&bin).exists() => {
+                bins.push(("asan".into(), bin.clone().into()));
+                for k in 0..nsh {
+                    let child = std::process::Command::new(&bin)
+                        .args(["shard", check.id, tier.name(), &k.to_string(), &nsh.to_string()])
+                        .env("VERIF_SEED", seed.to_string())
+                        .env("FV_FLAVOUR", "asan")
+                        .env("ASAN_OPTIONS", "detect_leaks=0:halt_on_error=1:abort_on_error=0:exitcode=97")
+                        .stdout(std::process::Stdio::piped())
+                        .stderr(std::process::Stdio::piped())
+                        .spawn()
+                        .expect("spawn asan shard");
+                    children.push(("asan".into(), k, child));
+                }
+            }
+            _ => san_notes.push("AddressSanitizer build not available: asan shards skipped".to_string()),
+        }
+        match std::env::var("FV_MIRI_DIR") {
+            Ok(dir) => {
+                bins.push(("miri".into(), "cargo +nightly miri run".into()));
+                for k in 0..nsh {
+                    let child = std::process::Command::new("cargo")
+                        .args(["+nightly", "miri", "run", "-q", "--offline", "--manifest-path"])
+                        .arg(format!("{dir}/Cargo.toml"))
+                        .args(["--", "shard", check.id, tier.name(), &k.to_string(), &nsh.to_string()])
+                        .env("VERIF_SEED", seed.to_string())
+                        .env("MIRIFLAGS", "-Zmiri-disable-isolation")
+                        .env("CARGO_TARGET_DIR", format!("{dir}/target/miri"))
+                        .stdout(std::process::Stdio::piped())
+                        .stderr(std::process::Stdio::piped())
+                        .spawn()
+                        .expect("spawn miri shard");
+                    children.push(("miri".into(), k, child));
+                }
+            }
+            _ => san_notes.push("Miri not prepared: miri shards skipped".to_string()),
+        }
+    }
     let mut acc = Acc::default();
+    for n in &san_notes {
+        acc.note(n);
+    }
     let mut harness_errors = vec![];
     for (fl, k, child) in children {
         let out = child.wait_with_output().expect("wait shard");
@@ -413,6 +497,23 @@ pub fn run_parent(check: &Check, tier: Tier) -> i32 {
         }
         if !got {
             let err = String::from_utf8_lossy(&out.stderr);
+            // a sanitizer report kills the shard: that is a violation of the check that ran it
+            if let Some(l) = err.lines().find(|l| l.contains("ERROR: AddressSanitizer") || l.contains("Undefined Behavior") || l.contains("error: unsupported operation") && fl == "miri") {
+                let ctx: Vec<String> = err.lines().skip_while(|x| *x != l).take(14).map(|x| x.to_string()).collect();
+                acc.viols.push(Viol {
+                    property: check.id.to_string(),
+                    rule: format!("{}/sanitizer-report-{fl}", check.id),
+                    sig: format!("{}/sanitizer-report-{fl}", check.id),
+                    msg: l.trim().to_string(),
+                    workload: "sanitizer-shard".into(),
+                    case: k,
+                    seed,
+                    tier: tier.name().into(),
+                    flavour: fl.clone(),
+                    trace: ctx,
+                });
+                continue;
+            }
             let tail: String = err.lines().rev().take(12).collect::<Vec<_>>().into_iter().rev().collect::<Vec<_>>().join("\n");
             // A shard that died is examined by the check (C06 maps foca-originated aborts to violations itself,
             // from inside the shard); here it is a harness-level failure.
